@@ -90,6 +90,17 @@ def check_model(case, rec):
         mpo = construct(case)
     require(mpo.nsites == L, 'wrong number of sites', got=mpo.nsites, want=L)
     require(len(mpo.qd) == d, 'wrong physical dimension', got=len(mpo.qd), want=d)
+    if L <= 4:
+        # constructors keep no state between calls: another model built in between, then the same call again, gives the same
+        # tensors, and the object built first is still what it was
+        A_first = [np.array(a, copy=True) for a in mpo.A]
+        ptn.ising_mpo(L + 1, 0.3, -0.7, 1.1); ptn.bose_hubbard_mpo(3, max(2, L - 1), 0.4, 1.3, -0.2); ptn.fermi_hubbard_mpo(2, 1.0, 2.0, 0.5)
+        mpo_again = construct(case)
+        require(all(np.array_equal(a, b) for a, b in zip(mpo.A, A_first)), 'an MPO built earlier changed when other models were constructed')
+        require(len(mpo_again.A) == len(mpo.A) and all(a.shape == b.shape and np.array_equal(a, b) for a, b in zip(mpo_again.A, mpo.A))
+                and all(np.array_equal(p, q) for p, q in zip(mpo_again.qD, mpo.qD)),
+                'the same constructor call gives a different MPO after other models were constructed', bond_dims=[mpo.bond_dims, mpo_again.bond_dims])
+        rec.label('repeated_construction')
     M = mpo_to_mat([np.asarray(a, dtype=complex) for a in mpo.A])
     require(M.shape == Href.shape, 'dense matrix has the wrong shape', got=M.shape, want=Href.shape)
     err = np.linalg.norm(M - Href)
